@@ -41,13 +41,13 @@ def plan(tier, seed):
     n = 48 if tier == 'thorough' else 16
     for k in range(n):
         specs.append(dict(kind='inject', sub=k, n=3 + k % 3,
-                          steps=900 if tier == 'thorough' else 220,
+                          steps=900 if tier == 'thorough' else 350,
                           auto=(k % 2 == 1), dynamic=(k % 4 >= 2),
                           hashseed=k))
-    nsyn = 8 if tier == 'thorough' else 2
+    nsyn = 8 if tier == 'thorough' else 4
     for k in range(nsyn):
         specs.append(dict(kind='syntax', sub=k,
-                          formulas=200 if tier == 'thorough' else 40,
+                          formulas=200 if tier == 'thorough' else 60,
                           auto=(k % 2 == 1), hashseed=k))
     meta = dict(
         rule=RULE,
